@@ -113,6 +113,15 @@ def resolve(ref, prelude):
     for name in ref.path[1:]:
         if cur.kind in ("field", "abbr", "param"):
             f = cur.field if cur.kind == "abbr" else cur
+            hops = 0
+            while getattr(f, "alias_ref", None) is not None and hops < 8:
+                # a virtual field that is a plain path is an alias: members are
+                # looked up in the field it points to
+                hops += 1
+                out = resolve(f.alias_ref, prelude)
+                if out[0] != "ok" or out[1].kind not in ("field", "abbr"):
+                    return ("no-member", name)
+                f = out[1].field if out[1].kind == "abbr" else out[1]
             if f.kind == "param":
                 return ("no-member", name)
             if f.array:
@@ -160,7 +169,7 @@ class Builder(object):
         free = [n for n in pool if n not in used]
         if free and not (used and r.random() < allow_dup):
             return r.choice(free)
-        if used & set(pool) and r.random() < 0.5:
+        if used & set(pool) and r.random() < 0.04:
             return r.choice(sorted(used & set(pool)))  # deliberate duplicate
         return self.uniq(pool[0].lower() if pool[0][0].islower() else pool[0])
 
@@ -197,20 +206,20 @@ class Builder(object):
         scope.defs.append(d)
         self.all_types.append(d)
         if depth < 2:
-            for _ in range(r.choice([0, 0, 1, 1, 2])):
+            for _ in range(r.choice([0, 0, 1, 1, 2]) if r.random() < 0.5 else r.choice([0, 0, 1])):
                 if r.random() < 0.35:
                     self.enum(d.own, file, depth + 1)
                 else:
                     self.struct(d.own, file, depth + 1)
         # NOTE: the compiler adds parameters to the table after fields
         pos = 0
-        nf = r.choice([2, 3, 4])
+        nf = r.choice([1, 2, 2, 3])
         for i in range(nf):
             self.field(d, file, depth + 1, pos)
             pos += 1
         d.own.defs.extend(pdefs)
         # reference sites
-        for _ in range(r.choice([1, 2, 3, 4])):
+        for _ in range(r.choice([1, 1, 2, 3])):
             self.ref_site(d, file, depth + 1, pos)
             pos += 1
         return d
@@ -270,7 +279,8 @@ class Builder(object):
             sc = sc.parent
         k = r.random()
         if t.scope in chain:
-            if k < 0.6:
+            clash = sum(1 for c in chain if t.name in c.table()) > 1 or t.name in PRELUDE_TYPES
+            if k < (0.15 if clash else 0.6):
                 return [t.name]  # bare: works if exactly one visible scope defines it
             if k < 0.9:
                 return full
@@ -291,10 +301,15 @@ class Builder(object):
         holder = self.uniq("r")
         fields = [d for d in sc.defs if d.kind in ("field", "abbr", "param")]
         if k < 0.3 and fields:
-            # local field / abbreviation / parameter, maybe with a member path
-            d = r.choice(fields)
+            # local field / abbreviation / parameter / earlier alias, maybe with a member path
+            aliases = [d for d in fields if getattr(d, "alias_ref", None) is not None]
+            d = r.choice(aliases) if aliases and r.random() < 0.4 else r.choice(fields)
             path = [d.name]
             f = d.field if d.kind == "abbr" else d
+            if getattr(f, "alias_ref", None) is not None:
+                o = resolve(f.alias_ref, self.prelude)
+                if o[0] == "ok" and o[1].kind in ("field", "abbr"):
+                    f = o[1].field if o[1].kind == "abbr" else o[1]
             for _ in range(2):
                 if f.kind == "field" and f.ftype is not None and f.ftype.kind == "struct" and r.random() < 0.7:
                     mem = [m for m in f.ftype.own.defs if m.kind in ("field", "abbr")]
@@ -305,11 +320,11 @@ class Builder(object):
                     f = m.field if m.kind == "abbr" else m
                 else:
                     break
-            if r.random() < 0.08:
+            if r.random() < 0.04:
                 path.append(r.choice(FIELD_POOL))
             ref = Ref("value", path, sc, None, holder)
             text = "let %s = %s" % (holder, ".".join(path))
-        elif k < 0.45:
+        elif k < 0.36:
             # a field of an enclosing struct, an abbreviation of another struct, or junk
             outer = sc.parent
             cands = []
@@ -330,12 +345,14 @@ class Builder(object):
                 v = r.choice(e.own.defs)
                 tp = self.spell_type(e, sc)
                 path = tp + [v.name]
-                if r.random() < 0.1:
+                if r.random() < 0.05:
                     path = [v.name]  # bare value name outside its enum
-                if r.random() < 0.07:
+                if r.random() < 0.04:
                     path = tp + [r.choice(VALUE_POOL + ["ZZ_"])]
+            elif fields:
+                path = [r.choice(fields).name]
             else:
-                path = ["Nope", "AA"]
+                path = ["nope"]
             ref = Ref("value", path, sc, None, holder)
             text = "let %s = %s" % (holder, ".".join(path))
         else:
@@ -346,13 +363,14 @@ class Builder(object):
                 if r.random() < 0.06:
                     path = path[:-1] + [r.choice(TYPE_POOL + ["Zz"])]
             else:
-                path = ["Zz"]
+                path = ["UInt"]
             ref = Ref("type", path, sc, None, holder)
             text = "%d [+1]  %s  %s" % (pos, ".".join(path), holder)
         ref.line = self.emit(file, "  " * depth + text)
         self.refs.append(ref)
         hd = Def("field", holder, sc)
         hd.line = ref.line
+        hd.alias_ref = ref if (ref.kind == "value" and ref.path[-1][0].islower()) else None
         if ref.kind == "type":
             out = resolve(ref, self.prelude)
             hd.ftype = out[1] if out[0] == "ok" and out[1].kind in ("struct", "enum") and not getattr(out[1], "scalar", False) else None
@@ -382,7 +400,7 @@ class Builder(object):
                 mods["m.emb"].defs.append(d2)
         for f in files:
             self.emit(f, '[$default byte_order: "LittleEndian"]')
-            for _ in range(r.choice([1, 2, 3]) if f == "m.emb" else r.choice([1, 2])):
+            for _ in range(r.choice([1, 2, 2, 3]) if f == "m.emb" else r.choice([1, 1, 2])):
                 if r.random() < 0.3:
                     self.enum(mods[f], f, 0)
                 else:
